@@ -26,8 +26,8 @@ RULE = ('four streams. re: every string of <= 5 (thorough: 6) tokens over {" ", 
         'the extracted Spec-only monitor holds_C20 on (cart code, directory content, file.from_file(cart).lua.to_lines()) '
         'and on the raw process_includes output. distinct+non-trivial = distinct (host lines, names) with >= 1 include line')
 CLAIM = dict(
-    text=("Theorems (Coq, closed under the global context), about the model of p8.py's include machinery after one "
-          "`fix:` commit (findings/known_C20.json): C20_splice / C20_splice_complete (the result is the in-order "
+    text=("Theorems (Coq, closed under the global context), about the model of p8.py's include machinery after "
+          "two `fix:` commits (findings/known_C20.json): C20_splice / C20_splice_complete (the result is the in-order "
           "concatenation of what each line expands to), C20_expand (a non-include line expands to itself; an include "
           "line to the - selected - lines of its target, each given its newline and not examined again, so nested "
           "includes are not expanded), C20_tab (NAME:n is the n-th segment between -->8 lines, empty beyond the last; "
@@ -39,8 +39,9 @@ CLAIM = dict(
           "Spec/SpliceSpec.v is defined the model's code text has exactly the reference lines (no host line merged "
           "with an included one, with or without final newline) and fails when a file is missing; C20_model_holds "
           "(the monitor's predicate holds of the model). C20_glue_variant_refuted: with `yield line` (the code "
-          "before the fix) the statement is false (vm_compute witness x=1 / a=bc=d). Tie: regex sources + the way "
-          "they are applied, the shape of the two yield sites and of the containment tests are regenerated and "
+          "before the fix) the statement is false (vm_compute witness x=1 / a=bc=d); C20_tab_variant_refuted: so it is when "
+          "tabs are selected on the lexer's chunks (a -->8 line inside a long string). Tie: regex sources + the way "
+          "they are applied, the shape of the two yield sites, of the lines offered to lines_for_tab and of the containment tests are regenerated and "
           "pinned; match_include_line vs re on every string of <= 5 (6) tokens + mutations; lines_for_tab, file "
           "iteration, process_includes on real directory trees vs the extracted model; the Spec-only monitor on "
           "file.from_file(cart).lua.to_lines() and on the raw process_includes output; the Spec's recogniser is "
@@ -50,16 +51,14 @@ CLAIM = dict(
           "description-derived Spec (text lines cut at \\n; the directive grammar `#include NAME[:n]`; tabs separated by "
           "lines equal to -->8). No claim (Spec undefined) for: malformed directives, a selector on a .lua file, "
           "absolute or ..-names (C12's subject), selecting a tab of a cart that has a longer line starting with -->8. "
-          "view_ok (the hypothesis of C20_in_place: reader chunks are single lines) is checked for every cart of "
-          "the sandbox on each run."),
+          "fs_agrees (the hypothesis of C20_in_place: a named text file is read as its bytes, a named cart's reader "
+          "returns its code) is checked for every cart of the sandbox on each run."),
     technique='Coq refinement proof (regex scanner + splice vs a reference splice) + regenerated shapes + extracted-model correspondence + extracted monitor',
     design_ref='8 C20')
 ASSUMPTIONS = ['lines of the including cart reach process_includes newline-terminated (the .p8 reader guarantees it)',
-               'C20_in_place assumes view_ok: named text files are read as their bytes and a named cart\'s reader chunks are '
-               'the single lines of its code (a chunk with an embedded newline, i.e. a multi-line string or comment, is '
-               'outside the theorem; the monitor still checks such loads)']
-PARTIAL = ('what the cart readers return for a .p8 / .p8.png file is taken from the implementation (other properties); '
-           'carts whose code has multi-line tokens are covered by the monitor and the correspondence only')
+               'C20_in_place assumes fs_agrees: named text files are read as their bytes and a named cart\'s reader returns the '
+               'cart\'s code (chunked in any way)']
+PARTIAL = ('what the cart readers return for a .p8 / .p8.png file is taken from the implementation (other properties)')
 CASE_TIMEOUT = 120
 
 SB = {'root': None, 'view': None, 'content': None, 'view_ok': None}
@@ -89,9 +88,11 @@ CART_CODES = {
     't5': b'u1=1\n-->8\nu2=2',                           # last tab unterminated
     't6': b'v=1',                                        # unterminated single line
     't7': b'w1=1\n -->8\nw2=2\n--->8\nw3=3\n',           # near-miss separators
+    't8': b's=[[\n-->8\n]]\nt=2\n-->8\nu=3\n',            # a long string opened in tab 0 and closed in tab 1
+    't9': b'g=1 --[[ c\n-->8\nd ]]\nv=1',                   # a long comment across a tab boundary, unterminated end
 }
 CART_DIRS = {'t0': ['', 'sub/', 'sub/deep/'], 't1': ['', 'sub/'], 't2': [''], 't3': [''], 't4': [''], 't5': [''],
-             't6': [''], 't7': ['']}
+             't6': [''], 't7': [''], 't8': ['', 'sub/'], 't9': ['']}
 MISSING = ['nope.lua', 'nope.p8', 'nope.p8.png', 'sub/nope.lua', 'l0.p8']
 
 
@@ -166,10 +167,7 @@ def fs_view(S):
                         rel = os.path.relpath(full, os.path.join(S, 'c'))
                         if rel in SB['content']:
                             code = SB['content'][rel][1]
-                            tl = code.split(b'\n')
-                            if tl and tl[-1] == b'':
-                                tl.pop()
-                            ok = all(b'\n' not in x[:-1] for x in ls) and [x[:-1] if x.endswith(b'\n') else x for x in ls] == tl
+                            ok = b''.join(ls) == code
                             SB['view_ok'].append((rel, ok))
                     except Exception:  # noqa
                         pass
@@ -304,6 +302,9 @@ def corpus_cases():
            'names': ['t3.p8', 't4.p8'], 'mode': 'abs'}
     yield {'kind': 'load', 'host': ['#include l4.lua', 'after=1'], 'names': ['l4.lua'], 'mode': 'abs'}
     yield {'kind': 'load', 'host': ['#include bad.p8'], 'names': [], 'mode': 'abs'}
+    # the former tab-counting defect (fixed): a -->8 line inside a long string / comment is a tab boundary
+    yield {'kind': 'load', 'host': ['#include t8.p8:1', 'z=1', '#include t8.p8.png:2'], 'names': ['t8.p8', 't8.p8.png'], 'mode': 'abs'}
+    yield {'kind': 'load', 'host': ['#include t9.p8:0', 'z=1'], 'names': ['t9.p8'], 'mode': 'abs'}
     yield {'kind': 'nofile', 'host': ['x=1', '#include l0.lua']}
     yield {'kind': 'nofile', 'host': ['x=1', 'y=2']}
 
@@ -443,8 +444,12 @@ def monitor_requests(case, obs):
         return []
     host = b''.join(obs['lualines'])
     fl = _mon_files(obs)
-    r = ['holds %s %s %s' % (h(host), fl, h(b''.join(obs['pi'])) if 'pi' in obs else 'ERR'),
-         'holds %s %s %s' % (h(host), fl, h(obs['load']) if 'load' in obs else 'ERR')]
+    r = ['holds %s %s %s' % (h(host), fl, h(b''.join(obs['pi'])) if 'pi' in obs else 'ERR')]
+    # the loaded cart: when the splice itself succeeded (judged by the request above) but the spliced text is
+    # not Lua the lexer / parser accepts (half of a long string selected as a tab, ...), the load fails for a
+    # reason outside this property: no second claim
+    if not ('pi' in obs and obs.get('load_err') in ('LexerError', 'ParserError')):
+        r.append('holds %s %s %s' % (h(host), fl, h(obs['load']) if 'load' in obs else 'ERR'))
     return r
 
 
@@ -475,13 +480,14 @@ def spec_selftest(monitor_exe, case, obs):
 def signature(case, obs):
     if case['kind'] not in ('load', 'nofile'):
         return 'C20/' + case['kind']
-    if 'load_err' in obs and 'pi' in obs:
-        return 'C20/load-error-after-splice/' + obs['load_err']
     unterminated = [n for n, k, t in obs.get('offered', []) if t and not t.endswith(b'\n')]
     if ('pi_err' in obs) != ('load_err' in obs):
         return 'C20/pi-vs-load'
     if 'pi_err' in obs:
         return 'C20/unexpected-error/' + obs['pi_err']
+    multi = [n for n, k, t in obs.get('offered', []) if k and (b'[[' in t)]
+    if multi and any(':' in x for x in case['host']):
+        return 'C20/tab/separator-inside-multiline-token'
     if unterminated:
         return 'C20/glue/no-final-newline'
     return 'C20/splice/other'
@@ -515,6 +521,8 @@ def nontrivial_key(case, obs):
 def histogram_key(case, obs):
     if case['kind'] not in ('load', 'nofile'):
         return case['kind']
+    if 'pi' in obs and obs.get('load_err') in ('LexerError', 'ParserError'):
+        return 'load:spliced-text-not-lexable'
     return 'load:' + (obs.get('load_err') or 'OK')
 
 
@@ -530,7 +538,7 @@ def run_cases(cases, ctx):
             for c in cases:
                 if c['kind'] in ('load', 'nofile') and id(c) in _OBS:
                     o = _OBS[id(c)]
-                    for r in monitor_requests(c, o)[1:]:
+                    for r in monitor_requests(c, o)[:1]:
                         reqs.append('judge' + r[5:])
             for a in lib.run_driver_parallel(ctx['monitor_exe'], reqs):
                 judged[a] = judged.get(a, 0) + 1
@@ -539,7 +547,7 @@ def run_cases(cases, ctx):
             for rel, ok in vk:
                 if not ok:
                     res['disagreements'].append({'case': {'kind': 'view', 'cart': rel}, 'summary': 'view_ok',
-                                                 'difference': 'reader chunks of %s are not the lines of its code' % rel})
+                                                 'difference': 'the reader does not return the code the fixture %s was made from' % rel})
             res['histogram']['spec:undefined'] = judged.get('0', 0)
             res['histogram']['spec:holds'] = judged.get('1', 0)
             for c in cases:
